@@ -1,5 +1,6 @@
 """C05 — copies are faithful and independent (DESIGN.md 7, C05)."""
 import coregen
+import c11
 from coregen import gen_case, nontrivial as _nt, c_env, c_prog, c_obs
 from common import cbool
 
@@ -47,6 +48,10 @@ def gen_cases(rng, tier):
         c = gen_case(rng, maxlen=rng.choice([3, 6, 10]))
         c['obs'] = ['copy']
         cases.append(c)
+    for _ in range(24 if tier == 'quick' else 400):      # rarely met shapes (coregen.gen_structured)
+        c = coregen.gen_structured(rng)
+        c['obs'] = ['copy']
+        cases.append(c)
     # programs with a relation to a GROUP of operations (MultiRelationLink, any relation type): specification only
     for _ in range(30 if tier == 'quick' else 400):
         c = gen_case(rng, maxlen=rng.choice([4, 6, 9]), depth=1)
@@ -58,7 +63,35 @@ def gen_cases(rng, tier):
         c['obs'] = ['copy']
         c['spec_only'] = True
         cases.append(c)
+    # copies of DERIVED circuits (unrolled, flattened, unrolled then flattened): specification only.  Unrolled-then-flattened is skipped
+    # where flatten() itself is known to be broken (C11's finding F10: a repeated block that contains a sub-circuit).
+    derived = [dict(c, derive=d) for c in derived_fixed() for d in (['mods'], ['flatten'], ['mods', 'flatten'])]
+    for _ in range(40 if tier == 'quick' else 600):
+        c = coregen.gen_structured(rng) if rng.random() < 0.4 else gen_case(rng, maxlen=rng.choice([3, 6, 9]), p_rel=0.0, p_dangling=0.0)
+        c['derive'] = rng.choice([['mods'], ['flatten'], ['mods', 'flatten'], ['mods', 'flatten']])
+        derived.append(c)
+    for c in derived:
+        if c['derive'] == ['mods', 'flatten'] and c11.block_with_sub_repeated(c['prog']):
+            c['derive'] = ['mods']
+        c['obs'] = ['copy']
+        c['spec_only'] = True
+        cases.append(c)
     return cases
+
+
+def derived_fixed():
+    """a long chain on q0 beside a short operation on q1, then a repeated block whose two first operations sit on q0 and q1: after
+    unrolling and flattening, the group the second pass refers to is no longer stored in listing-depth order"""
+    env = {'READOUT': 2.0, 'MICROWAVE': 1.0, 'FLUX': 1.0, 'RESET': 2.0}
+    w = lambda q, d: L('Wait', [q], dur=['fixed', d], ch='ALL')
+    progs = []
+    for n in (3, 6):
+        progs.append([{'t': 'sub', 'reps': 1, 'body': [L('Rx180', [0]) for _ in range(n)] + [w(1, 1.0)]},
+                      {'t': 'sub', 'reps': 2, 'body': [L('Rx90', [0]), w(1, 5.0)]}])
+        progs.append([L('Rx180', [0]) for _ in range(n)] + [w(1, 1.0), {'t': 'sub', 'reps': 3, 'body': [L('Rx90', [0]), w(1, 5.0), L('Ry90', [2])]}])
+    # F21 (fixed in c6503c2): two parallel first blocks of unequal length inside a repeated block; the unrolled circuit is copied
+    progs.append([{'t': 'sub', 'reps': 1, 'body': [{'t': 'sub', 'reps': 2, 'body': [{'t': 'sub', 'reps': 1, 'body': [w(0, 5.0)]}, {'t': 'sub', 'reps': 1, 'body': [w(1, 2.0)]}, L('Rx90', [0])]}]}])
+    return [{'prog': p, 'env': env, 'reg': {'k0': 1.0, 'k1': 2.0}} for p in progs]
 
 
 IMPOSSIBLE = ("{| k_prog := []; k_env := mk_env 0 0 0 0 []; k_orig := Some {| o_ops := []; o_duration := 0; o_comps := [] |}; "
